@@ -176,13 +176,13 @@ POSED = ("box", "ellipsoid", "cylinder")
 NEARID_FUNCS = [f for f in pl.FUNCS if any(k in POSED for k in pl.kinds_of(f))]
 
 
-def near_identity_rot(rng, exact=0.24):
+def near_identity_rot(rng, ident=0.12, perm=0.12):
     """a rotation matrix (nested lists): exactly the identity, exactly an axis permutation, or a turn by 1e-9 .. 1e-5 rad
     about a coordinate / random axis (optionally composed with an axis permutation)"""
     u = rng.random()
-    if u < 0.5 * exact:
+    if u < ident:
         return [list(r) for r in I3]
-    if u < exact:
+    if u < ident + perm:
         return [list(r) for r in rng.choice(pl.PERM_ROT)]
     ang = 10 ** rng.uniform(-9.0, -5.0)
     ax = list(rng.choice(COORD_AXES)) if rng.random() < 0.3 else pl.unit([rng.gauss(0, 1) for _ in range(3)])
@@ -242,7 +242,7 @@ def gen_nearid_prim_scene(rng, fn):
         r = rng.uniform(0, rad)
         t = [r * x for x in u]
     else:
-        Rm = near_identity_rot(rng, exact=0.6)
+        Rm = near_identity_rot(rng, ident=0.4, perm=0.2)
         t = far_translation(rng, far)
     s = gen_scale(rng, pl.feature_sizes(A) + pl.feature_sizes(B), far, 0.2, 100.0)
     return dict(part="prim", fn=fn, A=A, B=B, stream="nearid-far" if far_scene else "nearid", R=Rm, t=t, s=float(s))
@@ -282,7 +282,7 @@ def nearid_pair(rng, tier):
     if far_scene:
         Rm, t = gen_motion(rng, far)
     else:
-        Rm, t = np.array(near_identity_rot(rng, exact=0.6)), np.array(far_translation(rng, far))
+        Rm, t = np.array(near_identity_rot(rng, ident=0.4, perm=0.2)), np.array(far_translation(rng, far))
     return s1, s2, meta, Rm, t
 
 
@@ -945,7 +945,7 @@ def run(tier, seed, replay=None):
         "translation keeping the scene within 1e3 of the origin) and one scale factor in [1e-2,1e2] keeping all sizes in the "
         "domain; stream nearid: frames of both arguments within 1e-9 .. 1e-5 rad of the identity / of an axis permutation (or exactly "
         "so), scene near the origin moved by (identity | near-identity | axis permutation) + a translation up to 985, or scene "
-        "up to 985 from the origin moved by an arbitrary rotation, for all 34 distance functions (12 per posed function) and "
+        "up to 985 from the origin moved by an arbitrary rotation, for all 34 distance functions (30 per posed function in the quick tier) and "
         "collider scenes; distinct by canonical hash of (scene, motion, scale); non-trivial = at least one scalar comparison between two "
         "forms of the scene was actually made (not skipped as raised / known finding / band)")
     R.assumptions += [
@@ -992,7 +992,7 @@ def run(tier, seed, replay=None):
                 scenes.append(gen_prim_scene(R.rng, fn))
         # near-identity frames x far translations (see near_identity_rot): every distance function, with more weight on the
         # ones that take a 4x4 pose (box, ellipsoid, cylinder: the code evaluates them in the local frame), and collider scenes
-        n_posed, n_other, n_near_nar = (12, 3, 14) if tier == "quick" else (120, 30, 150)
+        n_posed, n_other, n_near_nar = (30, 4, 14) if tier == "quick" else (240, 40, 150)
         if cm.os.environ.get("C12_NEARID"):            # development aid only
             n_posed, n_other, n_near_nar = (int(x) for x in cm.os.environ["C12_NEARID"].split(","))
         for fn in pl.FUNCS:
